@@ -580,3 +580,67 @@ func sortedKeys(m map[string]bool) []string {
 	sort.Strings(out)
 	return out
 }
+
+// errorsPropagate checks error discipline in f: for every call accepted by `want` that returns an
+// error, every instruction accepted by `success` (typically the success returns of f, or the
+// datapath call that must not happen after a failure) is unreachable from the call unless the
+// error was examined and found nil. An error that is overwritten or never looked at fails.
+func errorsPropagate(w *World, r *Report, rule string, f *ssa.Function, want func(*ssa.Call) bool, success instrPred, what string) int {
+	n := 0
+	fn := w.FuncName(f)
+	allInstrs(f, func(i ssa.Instruction) {
+		c, ok := i.(*ssa.Call)
+		if !ok || !want(c) {
+			return
+		}
+		sig := c.Call.Signature()
+		if sig == nil || sig.Results().Len() == 0 || !isErrorType(sig.Results().At(sig.Results().Len()-1).Type()) {
+			return
+		}
+		n++
+		name := shortCallee(calleeName(c))
+		construct := fmt.Sprintf("an error of %s (#%d) %s", name, ordinalIn(f, c), what)
+		ev := errResult(c)
+		if ev == nil {
+			r.bad(rule, fn, construct, w.Pos(c.Pos()), "the error result of "+name+" is discarded")
+			return
+		}
+		okAll := true
+		allInstrs(f, func(j ssa.Instruction) {
+			if !success(j) {
+				return
+			}
+			if j.Block() == c.Block() && idxIn(j.Block(), j) < idxIn(c.Block(), c) && !reachesBlock(firstSucc(c.Block()), c.Block()) {
+				return
+			}
+			if !errGuarded(f, c, ev, func(k ssa.Instruction) bool { return k == j }) {
+				okAll = false
+			}
+		})
+		r.check(okAll, rule, fn, construct, w.Pos(c.Pos()), "success unreachable unless err == nil", "the error of "+name+" is overwritten or never examined before "+fn+" goes on as if the call had succeeded")
+	})
+	return n
+}
+
+func firstSucc(b *ssa.BasicBlock) *ssa.BasicBlock {
+	if len(b.Succs) > 0 {
+		return b.Succs[0]
+	}
+	return b
+}
+
+// successReturns: returns of f whose error result is the nil constant (all returns when f has no error result).
+func successReturns(f *ssa.Function) instrPred {
+	res0 := f.Signature.Results()
+	hasErr := res0.Len() > 0 && isErrorType(res0.At(res0.Len()-1).Type())
+	return func(i ssa.Instruction) bool {
+		ret, ok := i.(*ssa.Return)
+		if !ok {
+			return false
+		}
+		if !hasErr {
+			return true
+		}
+		return isNilConst(res(ret, res0.Len()-1))
+	}
+}
